@@ -3,6 +3,9 @@ package main
 // sub-harness `config` (C15): configuration sources merge in loader order; adding a source drops nothing.
 //
 //	scenario := ["EV" n (namehex value)^n] ["CF" | "OA" n (pathhex node)^n] opt* ("IN" opt*)* "|" path*
+//	          | "GS" opt* (("GS" | "NA") opt*)* "|" path*     a PROCESS history (ninth round, see cfgRunProc): `GS` =
+//	            app.Settings(the options up to the next mark) — registered for every App of the process —, `NA` = a new
+//	            App: app.NewApp().Run(the options up to the next mark), then every path is read from that App
 //	            `EV` = the ENVIRONMENT of the process holds these n variables for the duration of the scenario (value = hex of
 //	            the text, or `*` = whatever the process has under that name — PATH, HOME, … exist anyway —, "x" when it has
 //	            none).  The configuration is determined by the loaders alone: the model has no environment, its driver drops
@@ -14,6 +17,8 @@ package main
 //	          | "SC" n loader^n   app.SetConfigure(fresh configure holding the loaders)
 //	          | "SF" loader       app.SetConfig(file)           (loader is `f …` or `~ k`: the same path once more)
 //	loader   := "r" out | "f" out | "p" int out | "o" int out  raw / file / Priority raw / Ordered raw (harness types)
+//	          | "n" out                                        loader.NewFileLoader on a NAMED PIPE (ninth round, see cfgPipe):
+//	                                                           out = node | "E"; no `=` / `~` reference to it, no `IN`, no `EV`
 //	          | "a" n (pathhex node)^n                         loader.NewArgsLoader with n `--app.config=path=value`
 //	          | "=" k                                          the very same loader value/object as the k-th loader of the line
 //	          | "~" k                                          a new loader.NewFileLoader on the path of the k-th loader (an `f`)
@@ -71,13 +76,17 @@ package main
 // sort.Slice keeps ties in place only up to 12 elements), smaller classes do hold ties.
 
 import (
+	"context"
 	"fmt"
 	"hash/fnv"
 	"os"
+	"os/exec"
 	"path/filepath"
 	"sort"
 	"strconv"
 	"strings"
+	"syscall"
+	"time"
 
 	"github.com/go-kid/ioc/app"
 	"github.com/go-kid/ioc/configure"
@@ -91,6 +100,8 @@ import (
 
 func init() {
 	register(&Sub{Name: "config", Gen: cfgGen, Replay: cfgReplay, Corpus: cfgCorpus})
+	// hidden: one process history (`GS` line) in THIS process; see cfgRunProc
+	register(&Sub{Name: "configchild", Gen: func(*hx.Rng, int, string, *hx.Writer) {}, Replay: cfgProcHere})
 }
 
 // ---------------------------------------------------------------- scenario data
@@ -182,7 +193,7 @@ func cfgScn(opts []copt, paths []string) string {
 			t = append(t, lt[1:]...) // without the leading `a`
 			continue
 		}
-		if o.op == "SF" || o.op == "IN" || o.op == "CF" {
+		if o.op == "SF" || o.op == "IN" || o.op == "CF" || o.op == "GS" || o.op == "NA" {
 			t = append(t, o.op)
 		} else {
 			t = append(t, o.op, strconv.Itoa(len(o.ls)))
@@ -273,7 +284,7 @@ func (c *ctoks) loader1() *cloader {
 	switch l.kind {
 	case "=", "~":
 		ref, k := l.kind, c.num()
-		if c.bad || k < 1 || k > len(c.all) || (ref == "~" && c.all[k-1].kind != "f") {
+		if c.bad || k < 1 || k > len(c.all) || (ref == "~" && c.all[k-1].kind != "f") || c.all[k-1].kind == "n" {
 			c.bad = true
 			return l
 		}
@@ -291,7 +302,7 @@ func (c *ctoks) loader1() *cloader {
 		return l
 	case "p", "o":
 		l.order = c.num()
-	case "r", "f":
+	case "r", "f", "n":
 	default:
 		c.bad = true
 		return l
@@ -300,6 +311,9 @@ func (c *ctoks) loader1() *cloader {
 		l.out = c.next()[0]
 	} else {
 		l.doc = c.node()
+	}
+	if l.kind == "n" && l.out == 'X' {
+		c.bad = true // a pipe that does not exist is a file that does not exist: `f X`
 	}
 	return l
 }
@@ -331,10 +345,10 @@ func cfgParse(scn string) ([]copt, []string, bool) {
 				l.pairs = append(l.pairs, cpair{p, c.node()})
 			}
 			o.ls = []*cloader{l} // loader #0: not one of the numbered loaders of the line
-		case "IN":
+		case "IN", "GS", "NA":
 		case "SF":
 			o.ls = []*cloader{c.loader()}
-			if o.ls[0].kind != "f" || o.ls[0].ref == "=" {
+			if (o.ls[0].kind != "f" && o.ls[0].kind != "n") || o.ls[0].ref == "=" {
 				c.bad = true
 			}
 		case "SL", "AL", "CA", "SC":
@@ -357,7 +371,62 @@ func cfgParse(scn string) ([]copt, []string, bool) {
 		}
 		paths = append(paths, p)
 	}
+	if !c.bad && !cfgLineForm(opts) {
+		c.bad = true
+	}
 	return opts, paths, !c.bad
+}
+
+// cfgIsProc: a process history (`GS … NA …`)
+func cfgIsProc(opts []copt) bool { return len(opts) > 0 && opts[0].op == "GS" }
+
+// cfgHasPipe: one of the loaders is a FileLoader on a named pipe
+func cfgHasPipe(opts []copt) bool {
+	for _, o := range opts {
+		for _, l := range o.ls {
+			if l.kind == "n" {
+				return true
+			}
+		}
+	}
+	return false
+}
+
+// cfgLineForm: the marks of a line fit together.  A process history starts with `GS`, holds at least one `NA`, no
+// `IN` / `CF` / `OA`, no named pipe (every App would read it) and no SetConfigure among the registered options (ONE
+// Configure object shared by all Apps of the process is another matter); `GS` / `NA` stand nowhere else.  A named pipe
+// delivers its content once: no second Initialize.
+func cfgLineForm(opts []copt) bool {
+	proc, pipe := cfgIsProc(opts), cfgHasPipe(opts)
+	apps, global := 0, false
+	for _, o := range opts {
+		switch o.op {
+		case "GS":
+			if !proc {
+				return false
+			}
+			global = true
+		case "NA":
+			if !proc {
+				return false
+			}
+			apps++
+			global = false
+		case "IN":
+			if proc || pipe {
+				return false
+			}
+		case "CF", "OA":
+			if proc {
+				return false
+			}
+		case "SC":
+			if global {
+				return false
+			}
+		}
+	}
+	return !proc || (apps > 0 && !pipe)
 }
 
 // ---------------------------------------------------------------- YAML text of a document
@@ -490,6 +559,53 @@ type cfgEnv struct {
 	seq   int
 	objs  map[int]configure.Loader // per case: loader #id as handed to the real code
 	paths map[int]string           // per case: the file path of file loader #id
+	pipes []*cfgPipe               // per case: the named pipes that were made
+}
+
+// cfgPipe: a named pipe in the harness's scratch directory (os.TempDir, never the library or the verification tree) and
+// the goroutine that feeds it: it opens the pipe for writing — which blocks until somebody opens it for reading, i.e.
+// until FileLoader.LoadConfig gets there —, writes the document once and closes, so the reader meets the end of the
+// input after exactly the document's bytes, as with a file.  (A pipe reports size 0 whatever it holds; what a source
+// supplies is what can be READ from it.)  A pipe delivers once: the generator and the parser keep it to lines on which
+// it is read at most once (one Initialize, no second loader on the same path).
+type cfgPipe struct {
+	path string
+	done chan struct{}
+}
+
+func (e *cfgEnv) mkPipe(p string, data []byte) {
+	if err := syscall.Mkfifo(p, 0o600); err != nil {
+		panic("harness config: mkfifo: " + err.Error())
+	}
+	pp := &cfgPipe{path: p, done: make(chan struct{})}
+	go func() {
+		defer close(pp.done)
+		f, err := os.OpenFile(p, os.O_WRONLY, 0)
+		if err != nil {
+			return
+		}
+		_, _ = f.Write(data) // a reader that has gone already: EPIPE, nothing to do
+		_ = f.Close()
+	}()
+	e.pipes = append(e.pipes, pp)
+}
+
+// closePipes ends the writers of the case (one that nobody read from — the loader was replaced by a set-type option, or
+// the walk stopped at an earlier failing loader — is still waiting in open) and removes the pipes: opening a FIFO
+// read-write never blocks on Linux and lets a waiting writer (or reader) through.
+func (e *cfgEnv) closePipes() {
+	for _, pp := range e.pipes {
+		fd, err := syscall.Open(pp.path, syscall.O_RDWR|syscall.O_NONBLOCK, 0)
+		select {
+		case <-pp.done:
+		case <-time.After(5 * time.Second):
+		}
+		if err == nil {
+			_ = syscall.Close(fd)
+		}
+		_ = os.Remove(pp.path)
+	}
+	e.pipes = nil
 }
 
 func newCfgEnv() *cfgEnv {
@@ -514,6 +630,15 @@ func (e *cfgEnv) filePath1(l *cloader) string {
 	}
 	e.seq++
 	p := filepath.Join(e.dir, fmt.Sprintf("c%d_%d.yaml", e.seq, l.id))
+	if l.kind == "n" {
+		var data []byte
+		if l.out == 'D' {
+			data = []byte(yamlOf(l.doc))
+		}
+		p += ".fifo"
+		e.mkPipe(p, data)
+		return p
+	}
 	switch l.out {
 	case 'X':
 		return p + ".missing"
@@ -545,7 +670,7 @@ func (e *cfgEnv) realLoader1(l *cloader) configure.Loader {
 		data = []byte(yamlOf(l.doc))
 	}
 	switch l.kind {
-	case "f":
+	case "f", "n":
 		return loader.NewFileLoader(e.filePath(l))
 	case "p":
 		return &cfgPrioRaw{order: l.order, data: data, fail: l.out == 'X'}
@@ -650,6 +775,10 @@ type cfgRealOpt struct {
 }
 
 func cfgRun(env *cfgEnv, opts []copt, paths []string, tags []string, w *hx.Writer) {
+	if cfgIsProc(opts) {
+		cfgRunProc(opts, paths, tags, w)
+		return
+	}
 	c := hx.Case{Scn: cfgScn(opts, paths), Tags: tags}
 	obs, gots, panText := cfgExec(env, opts, paths)
 	c.Obs = strings.Join(obs, " / ")
@@ -657,9 +786,49 @@ func cfgRun(env *cfgEnv, opts []copt, paths []string, tags []string, w *hx.Write
 	w.Put(c)
 }
 
+// realOpts: the options of one batch with their real loader values
+func (env *cfgEnv) realOpts(ph []copt) (out []cfgRealOpt) {
+	for _, o := range ph {
+		var ls []configure.Loader
+		if o.op != "SF" {
+			for _, l := range o.ls {
+				ls = append(ls, env.realLoader(l))
+			}
+		}
+		var ro cfgRealOpt
+		switch o.op {
+		case "SL":
+			ro.app = app.SetConfigLoader(ls...)
+			ro.bare = func(c configure.Configure) { c.SetLoaders(ls...) }
+		case "AL":
+			ro.app = app.AddConfigLoader(ls...)
+			ro.bare = func(c configure.Configure) { c.AddLoaders(ls...) }
+		case "CA":
+			ro.app = func(s *app.App) { s.Configure.AddLoaders(ls...) }
+			ro.bare = func(c configure.Configure) { c.AddLoaders(ls...) }
+		case "SC":
+			cf := configure.NewConfigure()
+			cf.SetBinder(binder.NewViperBinder("yaml"))
+			cf.SetLoaders(ls...)
+			ro.app = app.SetConfigure(cf)
+			ro.bare = func(c configure.Configure) {}
+		case "SF":
+			p := env.filePath(o.ls[0])
+			fl := loader.NewFileLoader(p) // FileLoader is a string: the value SetConfig builds
+			env.objs[o.ls[0].id] = fl
+			ro.app = app.SetConfig(p)
+			ro.bare = func(c configure.Configure) { c.AddLoaders(fl) }
+		}
+		out = append(out, ro)
+	}
+	return out
+}
+
 // cfgExec: one line on the real code: the observation of every phase, what was read, the text of a panic
 func cfgExec(env *cfgEnv, opts []copt, paths []string) (obs []string, gots [][]string, panText string) {
 	env.objs, env.paths = map[int]configure.Loader{}, map[int]string{}
+	defer env.closePipes()
+	watch := cfgHasPipe(opts) // a start that waits for a pipe nobody feeds must not stop the harness
 	bare, phases := cfgSplit(opts)
 	if cl := cfgCmdline(opts); cl != nil {
 		saved := os.Args
@@ -668,46 +837,14 @@ func cfgExec(env *cfgEnv, opts []copt, paths []string) (obs []string, gots [][]s
 	}
 	ropts := make([][]cfgRealOpt, len(phases))
 	for k, ph := range phases {
-		for _, o := range ph {
-			var ls []configure.Loader
-			if o.op != "SF" {
-				for _, l := range o.ls {
-					ls = append(ls, env.realLoader(l))
-				}
-			}
-			var ro cfgRealOpt
-			switch o.op {
-			case "SL":
-				ro.app = app.SetConfigLoader(ls...)
-				ro.bare = func(c configure.Configure) { c.SetLoaders(ls...) }
-			case "AL":
-				ro.app = app.AddConfigLoader(ls...)
-				ro.bare = func(c configure.Configure) { c.AddLoaders(ls...) }
-			case "CA":
-				ro.app = func(s *app.App) { s.Configure.AddLoaders(ls...) }
-				ro.bare = func(c configure.Configure) { c.AddLoaders(ls...) }
-			case "SC":
-				cf := configure.NewConfigure()
-				cf.SetBinder(binder.NewViperBinder("yaml"))
-				cf.SetLoaders(ls...)
-				ro.app = app.SetConfigure(cf)
-				ro.bare = func(c configure.Configure) {}
-			case "SF":
-				p := env.filePath(o.ls[0])
-				fl := loader.NewFileLoader(p) // FileLoader is a string: the value SetConfig builds
-				env.objs[o.ls[0].id] = fl
-				ro.app = app.SetConfig(p)
-				ro.bare = func(c configure.Configure) { c.AddLoaders(fl) }
-			}
-			ropts[k] = append(ropts[k], ro)
-		}
+		ropts[k] = env.realOpts(ph)
 	}
 	var a *app.App
 	var cf configure.Configure
 	for k := range phases {
 		var err error
 		got := make([]string, len(paths))
-		pan := hx.Guard(func() {
+		body := func() {
 			switch {
 			case bare:
 				if k == 0 {
@@ -740,9 +877,18 @@ func cfgExec(env *cfgEnv, opts []copt, paths []string) (obs []string, gots [][]s
 					}
 				}
 			}
-		})
+		}
+		var pan any
+		hung := false
+		if watch {
+			pan, hung = cfgGuardTimed(body, 20*time.Second)
+		} else {
+			pan = hx.Guard(body)
+		}
 		gots = append(gots, got)
 		switch {
+		case hung:
+			obs = append(obs, "hang")
 		case pan != nil:
 			obs = append(obs, "panic")
 			panText = fmt.Sprint(pan)
@@ -751,11 +897,24 @@ func cfgExec(env *cfgEnv, opts []copt, paths []string) (obs []string, gots [][]s
 		default:
 			obs = append(obs, strings.Join(got, " "))
 		}
-		if pan != nil || err != nil {
+		if hung || pan != nil || err != nil {
 			break
 		}
 	}
 	return obs, gots, panText
+}
+
+// cfgGuardTimed: hx.Guard with a watchdog; after the time limit the goroutine is left behind (closePipes lets a start
+// that waits on a pipe through) and nothing it wrote is used
+func cfgGuardTimed(f func(), limit time.Duration) (pan any, hung bool) {
+	done := make(chan any, 1)
+	go func() { done <- hx.Guard(f) }()
+	select {
+	case pan = <-done:
+		return pan, false
+	case <-time.After(limit):
+		return nil, true
+	}
 }
 
 // ---------------------------------------------------------------- oracle (property wording, on the real observation)
@@ -898,7 +1057,7 @@ func cfgOrder(cur []*cloader) []*cloader {
 	var pr, or, rest []*cloader
 	for _, l := range cur {
 		switch l.kind {
-		case "f", "p":
+		case "f", "n", "p":
 			pr = append(pr, l)
 		case "o":
 			or = append(or, l)
@@ -907,7 +1066,7 @@ func cfgOrder(cur []*cloader) []*cloader {
 		}
 	}
 	ord := func(l *cloader) int {
-		if l.kind == "f" {
+		if l.kind == "f" || l.kind == "n" {
 			return 0
 		}
 		return l.order
@@ -1002,6 +1161,8 @@ func cfgOraclePhase(seq []*cloader, beforeAdd map[int]bool, views []*cfgDocView,
 		return views, viewLoader, "", true
 	case obs == "panic":
 		return fail("config-panic %s", panText)
+	case obs == "hang":
+		return fail("config-hang the start did not come back within the time limit (a source on a named pipe whose content was written and closed)")
 	case wantErr != (obs == "err"):
 		return fail("config-error expected error=%v observed %s", wantErr, obs)
 	case wantErr:
@@ -1140,6 +1301,9 @@ func cfgParseLine(scn string) (ev []cfgVar, opts []copt, paths []string, ok bool
 		}
 	}
 	opts, paths, ok = cfgParse(scn)
+	if ok && ev != nil && (cfgIsProc(opts) || cfgHasPipe(opts)) {
+		ok = false
+	}
 	return ev, opts, paths, ok
 }
 
@@ -1462,6 +1626,428 @@ func cfgEnvCorpus() []string {
 	}
 }
 
+// ---------------------------------------------------------------- process histories (`GS`, ninth round)
+//
+// app.Settings(opts…) registers options for EVERY App of the process: Run applies the options of the call and then all
+// registered ones, on every call.  A configuration source registered that way (app.Settings(app.AddConfigLoader(g)),
+// app.Settings(app.SetConfig(file))) is a configured source of every App started afterwards — the second and third as
+// much as the first —, next to the sources the App is given itself.
+//
+// Scenario: `GS opt* ((GS | NA) opt*)* | path*`: `GS` = app.Settings(the options up to the next mark), `NA` = a new App:
+// app.NewApp().Run(LogLevel, the options up to the next mark), then every path is read from THAT App.  Observation: one
+// phase per App, joined by " / " (`err` / `panic` / `hang` for an App that did not start; the history goes on: the Apps
+// are independent containers).
+//
+// app.Settings appends to a package-level list that is never cleared, so a history must not run in the long-running
+// harness process (every later scenario would start with its sources): cfgRunProc re-executes the harness binary
+// (hidden sub-command `configchild`) with the ONE line, under a time limit, and copies the case the child wrote.  The
+// child evaluates the oracle itself (it has what was read).
+//
+// Oracle (the property on every App, signatures `gs-…`): the configured sources of an App are the registered ones and
+// its own.  Every one of them is consulted (its marker key is visible: gs-source-lost / gs-add-discards), a key nobody
+// supplies shows nothing (gs-phantom-key), the last defining document in loader sequence wins (gs-last-wins).  The
+// property does not say whether a source registered through Settings counts as added before or after the App's own
+// options (the code applies the registered options after the call's own), so both readings are evaluated — the
+// registered options after the App's own, and before them — and a verdict is a failure only when it fails under both:
+// nothing is demanded about the relative order of a registered and an own none-ordered loader, nor about whether an
+// own set-type option removes a registered source.
+
+// cfgProcDirty: app.Settings was called in this process
+var cfgProcDirty bool
+
+type cfgSeg struct {
+	global bool
+	opts   []copt
+}
+
+func cfgProcSplit(opts []copt) (segs []cfgSeg) {
+	for _, o := range opts {
+		switch o.op {
+		case "GS":
+			segs = append(segs, cfgSeg{global: true})
+		case "NA":
+			segs = append(segs, cfgSeg{})
+		default:
+			if len(segs) > 0 {
+				segs[len(segs)-1].opts = append(segs[len(segs)-1].opts, o)
+			}
+		}
+	}
+	return segs
+}
+
+// cfgRunProc: one process history, in a child process of its own
+func cfgRunProc(opts []copt, paths []string, tags []string, w *hx.Writer) {
+	c := hx.Case{Scn: cfgScn(opts, paths), Tags: tags}
+	exe, err := os.Executable()
+	if err != nil {
+		exe = os.Args[0]
+	}
+	dir, err := os.MkdirTemp("", "iocverif-configchild-")
+	if err != nil {
+		panic(err)
+	}
+	defer os.RemoveAll(dir)
+	in, out := filepath.Join(dir, "in.txt"), filepath.Join(dir, "out.tsv")
+	_ = os.WriteFile(in, []byte(c.Scn+"\n"), 0o644)
+	ctx, cancel := context.WithTimeout(context.Background(), 120*time.Second)
+	defer cancel()
+	cmd := exec.CommandContext(ctx, exe, "configchild", "-replay", in, "-out", out)
+	var stderr strings.Builder
+	cmd.Stderr = &stderr
+	runErr := cmd.Run()
+	data, _ := os.ReadFile(out)
+	f := strings.Split(strings.TrimSuffix(string(data), "\n"), "\t")
+	switch {
+	case runErr == nil && len(f) >= 3 && f[0] == c.Scn:
+		c.Obs, c.Oracle = f[1], f[2]
+	case ctx.Err() != nil:
+		c.Obs, c.Oracle = "hang", "FAIL config-child-hang the process running the history did not end within the time limit"
+	default:
+		txt := stderr.String()
+		if len(txt) > 600 {
+			txt = txt[:600]
+		}
+		c.Obs, c.Oracle = "crash", fmt.Sprintf("FAIL config-child-crash %v: %s", runErr, txt)
+	}
+	w.Put(c)
+}
+
+// cfgProcHere: the history in THIS process (the child side of cfgRunProc); one line per process
+func cfgProcHere(scn string, w *hx.Writer) {
+	opts, paths, ok := cfgParse(scn)
+	if !ok || !cfgIsProc(opts) {
+		return
+	}
+	c := hx.Case{Scn: cfgScn(opts, paths), Tags: []string{"child"}}
+	if cfgProcDirty {
+		c.Obs, c.Oracle = "bad-process", "FAIL harness-config-child-reused app.Settings was already called in this process"
+		w.Put(c)
+		return
+	}
+	env := newCfgEnv()
+	defer env.close()
+	obs, gots, panTexts := cfgExecProc(env, opts, paths)
+	c.Obs = strings.Join(obs, " / ")
+	c.Oracle = cfgOracleProc(opts, paths, gots, obs, panTexts)
+	w.Put(c)
+}
+
+func cfgExecProc(env *cfgEnv, opts []copt, paths []string) (obs []string, gots [][]string, panTexts []string) {
+	env.objs, env.paths = map[int]configure.Loader{}, map[int]string{}
+	for _, sg := range cfgProcSplit(opts) {
+		var sopts []app.SettingOption
+		for _, ro := range env.realOpts(sg.opts) {
+			sopts = append(sopts, ro.app)
+		}
+		if sg.global {
+			cfgProcDirty = true
+			app.Settings(sopts...)
+			continue
+		}
+		var err error
+		got := make([]string, len(paths))
+		pan, hung := cfgGuardTimed(func() {
+			a := app.NewApp()
+			err = a.Run(append([]app.SettingOption{app.LogLevel(syslog.LvPanic)}, sopts...)...)
+			if err == nil {
+				for i, p := range paths {
+					got[i] = canonVal(a.Get(p))
+				}
+			}
+		}, 20*time.Second)
+		gots = append(gots, got)
+		panText := ""
+		switch {
+		case hung:
+			obs = append(obs, "hang")
+		case pan != nil:
+			obs = append(obs, "panic")
+			panText = fmt.Sprint(pan)
+		case err != nil:
+			obs = append(obs, "err")
+		default:
+			obs = append(obs, strings.Join(got, " "))
+		}
+		panTexts = append(panTexts, panText)
+		if hung {
+			break // the start left behind may still be running
+		}
+	}
+	return obs, gots, panTexts
+}
+
+// cfgOracleProc: the property on every App of a process history, under both readings of where the registered sources
+// stand among the App's own (see the head of this section)
+func cfgOracleProc(opts []copt, paths []string, gots [][]string, obs []string, panTexts []string) string {
+	segs := cfgProcSplit(opts)
+	napps := 0
+	for _, sg := range segs {
+		if !sg.global {
+			napps++
+		}
+	}
+	var globals []copt
+	k := 0
+	for _, sg := range segs {
+		if sg.global {
+			globals = append(globals, sg.opts...)
+			continue
+		}
+		if k >= len(obs) {
+			return fmt.Sprintf("FAIL config-error App #%d of the history was expected to be started", k+1)
+		}
+		verdict := func(first, second []copt) string {
+			var cur []*cloader
+			beforeAdd := map[int]bool{}
+			for _, o := range first {
+				cur = cfgApply(cur, o, beforeAdd)
+			}
+			for _, o := range second {
+				cur = cfgApply(cur, o, beforeAdd)
+			}
+			_, _, res, _ := cfgOraclePhase(cfgOrder(cur), beforeAdd, nil, nil, 0, paths, gots[k], obs[k], panTexts[k], "gs-")
+			return res
+		}
+		if res := verdict(sg.opts, globals); res != "" {
+			if res2 := verdict(globals, sg.opts); res2 != "" {
+				return fmt.Sprintf("%s (App #%d of %d in the process; %d option(s) registered through app.Settings before its start)", res, k+1, napps, len(globals))
+			}
+		}
+		k++
+	}
+	return ""
+}
+
+// cfgProcCorpus: hand-written process histories
+func cfgProcCorpus() []string {
+	h := hx.Hex
+	P := func(s string) string { return "P" + h(s) }
+	// global {global: {only: g}, shared: {global: true}, m1: 1}
+	global := fmt.Sprintf("M 3 %s M 1 %s %s %s M 1 %s %s %s P31", h("global"), h("only"), P("g"), h("shared"), h("global"), P("true"), h("m1"))
+	// the i-th App's raw document {raw: {only: i}, shared: {raw: true, from: raw}, m<id>: id} and file {file: {only: i}, shared: {file: true, from: file}, m<id>: id}
+	raw := func(i, id int) string {
+		return fmt.Sprintf("M 3 %s M 1 %s %s %s M 2 %s %s %s %s %s %s", h("raw"), h("only"), P(strconv.Itoa(i)), h("shared"), h("raw"), P("true"),
+			h("from"), P("raw"), h(fmt.Sprintf("m%d", id)), P(strconv.Itoa(id)))
+	}
+	file := func(i, id int) string {
+		return fmt.Sprintf("M 3 %s M 1 %s %s %s M 2 %s %s %s %s %s %s", h("file"), h("only"), P(strconv.Itoa(i)), h("shared"), h("file"), P("true"),
+			h("from"), P("file"), h(fmt.Sprintf("m%d", id)), P(strconv.Itoa(id)))
+	}
+	q := " | " + strings.Join([]string{h("global.only"), h("raw.only"), h("file.only"), h("shared.global"), h("shared.raw"), h("shared.file"),
+		h("shared.from"), h("shared"), h("m1"), h("m2"), h("m3"), h("m4"), h("m5"), h("m6"), h("m7"), h("zz"), "-"}, " ")
+	return []string{
+		// a raw document registered once, three Apps one after the other, each with its own raw document and config file
+		"GS AL 1 r " + global + " NA AL 1 r " + raw(1, 2) + " SF f " + file(1, 3) + " NA AL 1 r " + raw(2, 4) + " SF f " + file(2, 5) +
+			" NA AL 1 r " + raw(3, 6) + " SF f " + file(3, 7) + q,
+		// a config file registered for the process (app.Settings(app.SetConfig(path))); the second App has no source of its own
+		"GS SF f " + global + " NA AL 1 r " + raw(1, 2) + " NA NA CA 1 r " + raw(3, 4) + q,
+		// the first start fails (a loader of its own fails), the next App is given sound sources: the registered one is among them
+		"GS AL 1 r " + global + " NA AL 1 r X NA AL 1 r " + raw(2, 3) + q,
+		// a second registration between two Apps: the Apps started after it have both
+		"GS AL 1 r " + global + " NA SF f " + file(1, 2) + " GS AL 1 o 1 " + raw(0, 3) + " NA SF f " + file(2, 4) + " NA" + q,
+		// nothing registered before the first App; an App that sets its own loader list
+		"GS NA AL 1 r " + raw(1, 2) + " GS CA 1 p -1 " + global + " NA SL 1 r " + raw(2, 3) + " NA AL 1 a 1 " + h("shared.from") + " " + P("args") + q,
+	}
+}
+
+// cfgGenLoader: one loader of the usual kinds with its marker key (the body of cfgGenCase's loop)
+func (g *cfgGenSt) genLoader(id int, kinds string) *cloader {
+	r := g.r
+	l := &cloader{id: id, out: 'D', kind: string(kinds[r.Intn(len(kinds))])}
+	l.order = []int{-2, -1, 0, 0, 1, 3}[r.Intn(6)]
+	marker := &cnode{kind: 'P', text: strconv.Itoa(id)}
+	mkey := fmt.Sprintf("m%d", id)
+	if l.kind == "a" {
+		flattenPairs(g.mapNode("", 0, true), "", &l.pairs)
+		l.pairs = append(l.pairs, cpair{mkey, marker})
+		return l
+	}
+	switch {
+	case r.P(1, 40):
+		l.out = 'X'
+		g.tags["failing"] = true
+	case r.P(1, 20):
+		l.out = 'E'
+		g.tags["empty"] = true
+	default:
+		l.doc = g.mapNode("", 0, false)
+		l.doc.keys = append(l.doc.keys, mkey)
+		l.doc.vals = append(l.doc.vals, marker)
+	}
+	return l
+}
+
+// cfgGenProc: a process history (tag `proc`): 1-2 sources registered through app.Settings before the first App (add-type
+// options: AddConfigLoader, SetConfig(file), Configure.AddLoaders), 2-4 Apps started one after the other, each with 0-3
+// sources of its own (now and then through SetConfigLoader), one history in three with a further registration between
+// two Apps (tag `proc-late-settings`); all documents over the same six key names, so registered and own sources overlap.
+func cfgGenProc(r *hx.Rng) ([]copt, []string, []string) {
+	g := &cfgGenSt{r: r, role: map[string]byte{}, conflict: r.P(1, 10), tags: map[string]bool{}}
+	id := 0
+	var all []*cloader
+	batch := func(n int, kinds string, global bool) []copt {
+		var out []copt
+		for i := 0; i < n; i++ {
+			id++
+			l := g.genLoader(id, kinds)
+			if global && l.out == 'X' {
+				l.out, l.doc = 'D', g.mapNode("", 0, false) // a registered source that fails would fail every App
+				l.doc.keys = append(l.doc.keys, fmt.Sprintf("m%d", id))
+				l.doc.vals = append(l.doc.vals, &cnode{kind: 'P', text: strconv.Itoa(id)})
+			}
+			all = append(all, l)
+			op := "AL"
+			switch k := r.Intn(10); {
+			case l.kind == "f" && k < 7:
+				op = "SF"
+			case k < 2:
+				op = "CA"
+			case !global && len(out) == 0 && k < 4:
+				op = "SL"
+			}
+			if global {
+				g.tags["global-kind-"+l.kind] = true
+				g.tags["global-op-"+op] = true
+			}
+			out = append(out, copt{op: op, ls: []*cloader{l}})
+		}
+		return out
+	}
+	opts := []copt{{op: "GS"}}
+	opts = append(opts, batch(1+r.Intn(2), "rrrffapo", true)...)
+	napps := 2 + r.Intn(3)
+	late := -1
+	if r.P(1, 3) {
+		late = 1 + r.Intn(napps-1)
+		g.tags["proc-late-settings"] = true
+	}
+	for a := 0; a < napps; a++ {
+		if a == late {
+			opts = append(opts, copt{op: "GS"})
+			opts = append(opts, batch(1, "rrfapo", true)...)
+		}
+		opts = append(opts, copt{op: "NA"})
+		opts = append(opts, batch(r.Intn(4), "rrrfffaapo", false)...)
+	}
+	seen := map[string]bool{}
+	var paths []string
+	add := func(p string) {
+		if !seen[strings.ToLower(p)] && len(paths) < 40 {
+			seen[strings.ToLower(p)] = true
+			if r.P(1, 3) {
+				p = strings.ToLower(p)
+			}
+			paths = append(paths, p)
+		}
+	}
+	for _, l := range all {
+		add(fmt.Sprintf("m%d", l.id))
+	}
+	for _, j := range r.Perm(len(all)) {
+		l := all[j]
+		if l.kind == "a" {
+			if t, ok := argsTree(l.pairs); ok {
+				collectPaths(t, "", add)
+			}
+		} else if l.out == 'D' {
+			collectPaths(l.doc, "", add)
+		}
+	}
+	paths = append(paths, "zz", "")
+	tags := []string{"proc", fmt.Sprintf("apps%d", napps)}
+	for k := range g.tags {
+		tags = append(tags, k)
+	}
+	sort.Strings(tags)
+	return opts, paths, tags
+}
+
+// ---------------------------------------------------------------- a config file that is a named pipe (`n`, ninth round)
+
+// cfgPipeCorpus: hand-written lines with a FileLoader on a named pipe
+func cfgPipeCorpus() []string {
+	h := hx.Hex
+	P := func(s string) string { return "P" + h(s) }
+	// base file {base: {only: 1}, shared: {base: true, from: base}, top: base, m1: 1}
+	base := fmt.Sprintf("M 4 %s M 1 %s %s %s M 2 %s %s %s %s %s %s %s P31", h("base"), h("only"), P("1"), h("shared"), h("base"), P("true"),
+		h("from"), P("base"), h("top"), P("base"), h("m1"))
+	// piped {piped: {only: 2}, shared: {piped: true, from: piped}, top: piped, m2: 2}
+	piped := fmt.Sprintf("M 4 %s M 1 %s %s %s M 2 %s %s %s %s %s %s %s P32", h("piped"), h("only"), P("2"), h("shared"), h("piped"), P("true"),
+		h("from"), P("piped"), h("top"), P("piped"), h("m2"))
+	// raw {raw: {only: 3}, shared: {raw: true}, top: raw, m3: 3}
+	raw := fmt.Sprintf("M 4 %s M 1 %s %s %s M 1 %s %s %s %s %s P33", h("raw"), h("only"), P("3"), h("shared"), h("raw"), P("true"), h("top"), P("raw"), h("m3"))
+	q := " | " + strings.Join([]string{h("base.only"), h("piped.only"), h("raw.only"), h("shared.base"), h("shared.piped"), h("shared.raw"),
+		h("shared.from"), h("top"), h("shared"), h("m1"), h("m2"), h("m3"), h("zz"), "-"}, " ")
+	return []string{
+		// a config file, a second config "file" that is a pipe (`--config <(render)`), a raw document: file, pipe, raw
+		"SF f " + base + " SF n " + piped + " AL 1 r " + raw + q,
+		"SL 3 r " + raw + " n " + piped + " f " + base + q,
+		// the pipe alone; a pipe whose writer writes nothing (an empty source, like an empty file)
+		"SF n " + piped + q,
+		"AL 1 r " + raw + " CA 1 n E" + q,
+		// a pipe that is never read: the loader list is replaced after it was added; the walk stops at a failing loader before it
+		"AL 1 n " + piped + " SL 1 r " + raw + q,
+		"SL 2 p -1 X n " + piped + q,
+		// the process command line beats the pipe (files first), a raw document added by an option beats both
+		"OA 2 " + h("top") + " " + P("cli") + " " + h("m0") + " P30 SF n " + piped + " AL 1 r " + raw + " | " + h("top") + " " + h("piped.only") + " " + h("m0") + " " + h("m2") + " " + h("m3") + " -",
+	}
+}
+
+// cfgGenPipe: a line of cfgGenCase in which one source that is read once — a file, or a raw / priority / ordered
+// loader, not part of a repetition — becomes a FileLoader on a named pipe (tag `pipe`; `pipe-setconfig` when it is
+// given through app.SetConfig)
+func cfgGenPipe(r *hx.Rng) ([]copt, []string, []string) {
+	for {
+		rr := r.Fork()
+		opts, paths, tags := cfgGenCase(rr)
+		var cand, files []*cloader
+		referred := map[int]bool{}
+		for _, o := range opts {
+			for _, l := range o.ls {
+				if l.ref != "" {
+					referred[l.to] = true
+				}
+			}
+		}
+		for _, o := range opts {
+			for _, l := range o.ls {
+				if l.ref != "" || referred[l.id] || l.kind == "a" || l.out == 'X' {
+					continue
+				}
+				cand = append(cand, l)
+				if l.kind == "f" {
+					files = append(files, l)
+				}
+			}
+		}
+		if len(cand) == 0 {
+			continue
+		}
+		l := cand[rr.Intn(len(cand))]
+		if len(files) > 0 && rr.P(2, 3) {
+			l = files[rr.Intn(len(files))]
+		}
+		wasFile := l.kind == "f"
+		l.kind, l.order = "n", 0
+		var out []string
+		for _, t := range tags {
+			if t == "trivial" || (!wasFile && strings.HasPrefix(t, "repeat-")) {
+				continue
+			}
+			out = append(out, t)
+		}
+		out = append(out, "pipe", "kind-n")
+		for _, o := range opts {
+			if o.op == "SF" && o.ls[0] == l {
+				out = append(out, "pipe-setconfig")
+			}
+		}
+		sort.Strings(out)
+		return opts, paths, out
+	}
+}
+
 // ---------------------------------------------------------------- replay / corpus
 
 func cfgReplay(scn string, w *hx.Writer) {
@@ -1551,6 +2137,20 @@ func cfgCorpus(w *hx.Writer) {
 			panic("bad corpus line: " + scn)
 		}
 		cfgRun(env, opts, paths, []string{"corpus", "multi-init"}, w)
+	}
+	for _, scn := range cfgPipeCorpus() {
+		opts, paths, ok := cfgParse(scn)
+		if !ok || !cfgHasPipe(opts) {
+			panic("bad corpus line: " + scn)
+		}
+		cfgRun(env, opts, paths, []string{"corpus", "pipe"}, w)
+	}
+	for _, scn := range cfgProcCorpus() {
+		opts, paths, ok := cfgParse(scn)
+		if !ok || !cfgIsProc(opts) {
+			panic("bad corpus line: " + scn)
+		}
+		cfgRun(env, opts, paths, []string{"corpus", "proc"}, w)
 	}
 	for _, scn := range cfgEnvCorpus() {
 		ev, opts, paths, ok := cfgParseLine(scn)
@@ -2718,5 +3318,22 @@ func cfgGen(rng *hx.Rng, n int, tier string, w *hx.Writer) {
 	for i := 0; i < (n+19)/20; i++ {
 		ev, opts, paths, tags := cfgGenEnv(rng.Fork())
 		cfgRunEnv(env, ev, opts, paths, tags, w)
+	}
+	// ninth round, again from fresh forks after all lines above: a config file that is a named pipe (n/25 lines), and
+	// process histories with sources registered through app.Settings (n/50 lines, at most 400: one child process each)
+	env.close()
+	env = newCfgEnv()
+	for i := 0; i < (n+24)/25; i++ {
+		opts, paths, tags := cfgGenPipe(rng.Fork())
+		opts, paths, tags = cfgAddCmdline(opts, paths, tags)
+		cfgRun(env, opts, paths, tags, w)
+	}
+	np := (n + 49) / 50
+	if np > 400 {
+		np = 400
+	}
+	for i := 0; i < np; i++ {
+		opts, paths, tags := cfgGenProc(rng.Fork())
+		cfgRun(env, opts, paths, tags, w)
 	}
 }
